@@ -274,11 +274,25 @@ theorem expiry_finite :
 
 /-! ## Two endpoints and the relay: every fault script -/
 
+/-- **guard_held_across_handler** — the obligation the model's atomicity rests on.  `handleS` treats one `Handle` call on a
+    token's reassembly entry as one atomic step *including* the call of the application handler (`next`).  In the code
+    that is the critical section of the entry's binary semaphore (`messageGuard`): acquired in
+    `getCachedReceivedMessage` before the cached message is touched, released only by the deferred close function of
+    `processReceivedMessage`, i.e. after `next(w, cachedReceivedMessage)` has returned — no earlier release, no `go`
+    statement in between.  The extractor reads exactly this shape from the AST (`guardReleasedOnlyAfterNext`) and fails
+    closed on any other; with an earlier release a late block of the same token (since F10e: a block 0 restarts the
+    transfer in place) could rewrite the body while the handler still reads it, which no theorem about the sequential
+    model would notice.  The concurrent correspondence `TestC04Guard` exercises the same discipline on the real code. -/
+theorem guard_held_across_handler : guardReleasedOnlyAfterNext = true := rfl
+
 /-- **system_safe.** A (client) and B (server) joined by the relay.  For every script of relay decisions — deliver,
     duplicate, drop, swap, replay of any message that ever was in flight —, calls of `Do` and one-way `WriteMessage`
     by A's application, sleeps and cache sweeps: every message either layer hands to its application is an arrival
     that carries no data block of its direction, handed on as it is, or exactly what the peer's application supplied
-    under that token and ETag (body, other options, code).  The invariant (`WInv`) behind it: held bytes are
+    under that token and ETag (body, other options, code).  One relay decision = one `Handle` call = one atomic step:
+    that several goroutines working on one token are serialised this way — the handler included — is the guard
+    discipline `guard_held_across_handler` (regenerated from the source) plus the concurrent correspondence
+    `TestC04Guard`; calls on different tokens commute (`tokens_independent`).  The invariant (`WInv`) behind it: held bytes are
     prefixes, cached sending messages are whole supplied messages, everything that ever was on the wire is `GoodMsg`. -/
 theorem system_safe {RA RB : Reg} (hdA : Discipline RA) (hdB : Discipline RB) (hreq : RegReq RB)
     (w : World) (hw : WInv RA RB w) (ops : List Op)
@@ -430,6 +444,7 @@ open CoapVerif.Props.C04
 #print axioms etag_change_restarts
 #print axioms token_reuse_restarts
 #print axioms expiry_finite
+#print axioms guard_held_across_handler
 #print axioms system_safe
 #print axioms faultfree_progress_block1
 #print axioms faultfree_progress_block2
